@@ -1281,7 +1281,13 @@ func (r *vRunner) history(hist int, nOps int) {
 			rec := r.validRecipe("did:example:s6")
 			rec.VerifyC = true
 			class := ""
-			switch rng.Intn(5) {
+			switch rng.Intn(7) {
+			case 5:
+				// round 3: a hostile server hands out what the client's loop would dereference (no jti / not a JWT):
+				// updateService must refuse it with an error BEFORE storing anything (guards of fix bb52a33)
+				class, rec.NoID = "hostile:malformed-no-id", true
+			case 6:
+				class, rec.Format = "hostile:malformed-not-jwt", []string{"zero", "ld"}[rng.Intn(2)]
 			case 0:
 				class = "forged:retraction-with-credentials"
 				rec.Retraction, rec.RetractJTI = true, to.Ptr(rec.Subject+"#"+rec.Label) // names itself: only the credentials are wrong
